@@ -33,6 +33,9 @@ CONSTANTS Level,       \* 1: depth-1 alphabet; 2: + reduced depth-2 alphabet; 3:
           TripleLevel, \* 1: small triple alphabet; 2: large
           Shard, NShards, \* this TLC process handles the type cases with index % NShards = Shard;
                           \* Shard = NShards: no type cases, only Part 2 (Part 2 also runs when NShards = 1); MaxLen = 0: no Part 2
+          Fixed,       \* subset of {"dup", "map"}: defect paths repaired in the tree under test (the harness
+                       \* probes the real code): "dup" = merge returns a when a = b; "map" = maps are not merged
+                       \* structurally (two different map types fuse to a union of both)
           OutFile,     \* ndjson file for the type cases ("" = no export)
           SpillFile,   \* ndjson file for the spill cases ("" = no export)
           MaxLen,      \* state machine: max number of input values
@@ -119,7 +122,8 @@ R(t, x) == [t |-> t, x |-> x]
 RECURSIVE MergeR(_, _), MergeFieldsR(_, _, _), MergeAllRecordsR(_, _, _, _)
 MergeR(a, b) ==
   LET au == Under(a)  bu == Under(b) IN
-  IF au = NullT THEN R(b, {})
+  IF "dup" \in Fixed /\ a = b THEN R(a, {})
+  ELSE IF au = NullT THEN R(b, {})
   ELSE IF bu = NullT THEN R(a, {})
   ELSE IF au.k = "rec" /\ bu.k = "rec" THEN
        LET m == MergeFieldsR(au.fs, bu.fs, 1) IN R(Rec(m.t), m.x)
@@ -129,7 +133,7 @@ MergeR(a, b) ==
        LET m == MergeR(au.e, bu.e) IN R(Arr(m.t), m.x)
   ELSE IF au.k = "set" /\ bu.k = "set" THEN
        LET m == MergeR(au.e, bu.e) IN R(SetT(m.t), m.x)
-  ELSE IF au.k = "map" /\ bu.k = "map" THEN
+  ELSE IF au.k = "map" /\ bu.k = "map" /\ "map" \notin Fixed THEN
        LET mk == MergeR(au.kt, bu.kt)  mv == MergeR(au.vt, bu.vt) IN R(MapT(mk.t, mv.t), mk.x \cup mv.x)
   ELSE IF au.k = "union" THEN
        LET types1 == IF bu.k = "union" THEN AppendAllIfAbsent(au.ts, bu.ts, 1) ELSE AppendIfAbsent(au.ts, b)
